@@ -15,6 +15,7 @@ import (
 	"time"
 
 	"github.com/osteele/liquid"
+	"github.com/osteele/liquid/render"
 	"verif.local/simrt"
 )
 
@@ -154,6 +155,16 @@ func (x *c02Run) engine(h uint64) *liquid.Engine {
 	if e, ok := x.shared[h]; ok {
 		return e
 	}
+	// earlier activity elsewhere in the process: ANOTHER engine is configured
+	// differently (overrides standard filters, defines names this case may misspell)
+	other := liquid.NewEngine()
+	other.RegisterFilter("upcase", func(s string) string { return "!other-engine-upcase!" })
+	other.RegisterFilter("join", func(a []any) string { return "!other-engine-join!" })
+	other.RegisterFilter("size", func(a any) int { return -77 })
+	other.RegisterFilter("upcas", func(s string) string { return "!defined-elsewhere!" })
+	other.RegisterFilter("nosuchfilter", func(s string) string { return "!defined-elsewhere!" })
+	other.RegisterTag("echo", func(render.Context) (string, error) { return "!other-engine-echo!", nil })
+	other.ParseAndRenderString(`{{ "x" | upcase }}{% echo 1 %}`, map[string]any{})
 	e := NewEngine(x.cs.Cfg)
 	// a seeded history of other activity on this engine, including failures
 	hr := NewRng(h)
@@ -682,8 +693,8 @@ func (ck c02) Replay(c *Ctx, v *Violation) *Violation {
 	}
 	x := newC02Run(&cs, cliPath)
 	tries := 1
-	if cs.B.Order == simrt.OrderNative {
-		tries = 200 // uncontrolled site: Go's own randomisation decides
+	if cs.B.Order == simrt.OrderNative || len(c.Sites.UncontrolledMap) > 0 {
+		tries = 200 // an uncontrolled site: Go's own randomisation decides
 	}
 	for i := 0; i < tries; i++ {
 		a, b := x.exec(cs.A), x.exec(cs.B)
